@@ -5,6 +5,7 @@ import json, os
 import vlib
 
 SPEC = "Layers"
+CHUNK_LINES = 100000
 INVS = "TypeOK InvDeliveries InvPrefixLaw InvFilterLaw InvRouterLaw InvFanoutLaw InvCompose InvHandleTargets InvUpdateOnce"
 # code points: a A b B . e-acute E-acute
 A, UA, B, UB, DOT, EAC, UEAC = 97, 65, 98, 66, 46, 233, 201
@@ -92,8 +93,8 @@ def export_scopes(thorough):
         s += [
             ("x_filter_t", dict(Mode="filter", Alpha=[A, UA, DOT, UEAC], MaxPat=2, MaxPats=2, DfaSet=["TRUE", "FALSE"],
                                 NameAlpha=[A, UA, DOT, EAC], MaxName=3, KindSet=["g"], PerOp="alt")),
-            ("x_router_t", dict(Mode="router", Alpha=[A, DOT], MaxPat=2, MaxRoutes=3, NameAlpha=[A, DOT], MaxName=3,
-                                PerOp="alt")),
+            ("x_router_t", dict(Mode="router", Alpha=[A], MaxPat=2, MaxRoutes=3, MaskSet=["c", "h", "all"], NameAlpha=[A, DOT],
+                                MaxName=3, PerOp="alt")),
             ("x_stack_t", dict(Mode="stack", MaxDepth=3, NameAlpha=[A, UB, DOT], MaxName=3, PerOp="alt")),
         ]
     return s
@@ -113,8 +114,34 @@ def run_and_validate(chk, mode_args, trace, what, timeout=3000):
         chk.tool_error("c13 %s failed (rc=%s)" % (mode_args[0], rc), out)
     if summ.get("panics", 0):
         chk.log("%s: %d panics in the code under test (logged as events)" % (what, summ["panics"]))
-    n = vlib.validate_concat(chk, SPEC, "TraceLayers", "TraceLayers.cfg", trace, what, None, max_rounds=2, timeout=timeout)
-    chk.cov["traces_validated_against_impl"] += n
+    # validate in chunks of whole runs (TLC holds the deserialized trace in memory)
+    chunk, nchunks, size = [], 0, 0
+    def flush():
+        nonlocal chunk, nchunks, size
+        if not chunk:
+            return
+        if chk.violations >= 4:      # enough failing runs reported; do not spend minutes on the remaining chunks
+            chunk, size = [], 0
+            return
+        nchunks += 1
+        cp = trace if nchunks == 1 and size == total_lines else "%s.part%d" % (trace, nchunks)
+        if cp != trace:
+            with open(cp, "w") as f:
+                for ls in chunk:
+                    f.writelines(ls)
+        n = vlib.validate_concat(chk, SPEC, "TraceLayers", "TraceLayers.cfg", cp, what, None, max_rounds=2, timeout=timeout)
+        chk.cov["traces_validated_against_impl"] += n
+        if cp != trace:
+            os.remove(cp)
+        chunk, size = [], 0
+    runs = vlib.split_runs(trace)
+    total_lines = sum(len(ls) for _, ls in runs)
+    for _, ls in runs:
+        if size + len(ls) > CHUNK_LINES and chunk:
+            flush()
+        chunk.append(ls)
+        size += len(ls)
+    flush()
     chk.cov["distinct_nontrivial"] += summ.get("distinct_nontrivial", 0)
     return summ
 
